@@ -245,16 +245,24 @@ def fifo_models(ex, shape, nosort=False):
             return _one(Tup([]))
         if n <= 1:
             return _one(Tup([]))
-        ex.assumptions.add("stub: slice::sort_by_key = the stable sort by the closure's key (one successor per permutation, constrained to be the sorted one)")
+        stable = "sort_unstable" not in b.callee
+        rev = [isinstance(k, Enum) and k.variant == "Reverse" for k in keys]
+        if any(rev) and not all(rev):
+            raise MirError("sort keys of mixed shape")
+        kt = [k.payload[0] if isinstance(k, Enum) else k for k in keys]
+        if not all(isinstance(k, BV) for k in kt):
+            raise MirError("sort key is not an integer (or Reverse of one): %r" % (keys[0],))
+        ex.assumptions.add("stub: slice::sort[_unstable]_by_key = the (stable) sort by the closure's key (one successor per permutation, constrained to be a sorted one)")
         outs = []
         for perm in itertools.permutations(range(n)):
             conds = []
             for x in range(n - 1):
                 i, j = perm[x], perm[x + 1]
-                if i < j:
-                    conds.append("(bvule %s %s)" % (keys[i].t, keys[j].t))
+                lo, hi = (kt[j], kt[i]) if rev[0] else (kt[i], kt[j])
+                if i < j or not stable:
+                    conds.append("(bvule %s %s)" % (lo.t, hi.t))
                 else:
-                    conds.append("(bvult %s %s)" % (keys[i].t, keys[j].t))
+                    conds.append("(bvult %s %s)" % (lo.t, hi.t))
 
             def patch(ex2, env2, perm=perm, loc=loc):
                 v2 = local_obj(env2, env2[loc], "Vec")
@@ -300,7 +308,7 @@ def fifo_models(ex, shape, nosort=False):
         (r"^Table::referenced_blob_bytes$", m_blob_bytes),
         (r"^std::result::Result::<u64, error::Error>::unwrap_or_default$", m_unwrap_or_default),
         (r"^<Table as Deref>::deref$", m_table_deref),
-        (r"^std::slice::<impl \[&Table\]>::sort_by_key::<Timestamp,", m_sort_by_key),
+        (r"^(std|core)::slice::<impl \[&Table\]>::sort(_unstable)?_by_key::<", m_sort_by_key),
     ]
     selfobj = Rec("Strategy", "compaction/fifo.rs", "Strategy",
                   {"limit": ex.sym("limit", 64), "ttl_seconds": Opt(ex.symb("ttl_some"), ex.sym("ttl_s", 64))})
@@ -348,6 +356,8 @@ def _fifo_run(fns, fn, shape, nosort, timeout):
     total = "(bvadd %s %s)" % (z(ctx["l0_size"].t, 64), z(ctx["blob_size"].t, 64))
     within = "(bvule %s %s)" % (total, z(limit, 64))
     base = ["(bvuge %s (_ bv1 128))" % c for c in created]  # a table was created after the epoch
+    if n > 1:
+        base.append("(distinct %s)" % " ".join(t.meta.values["id"].t for t in flat))
     ex.assumptions.add("every table's created_at is >= 1 ns after the epoch")
     queries, info = [], {}
     cover = {"DoNothing": 0, "Drop(ttl only)": 0, "Drop(size)": 0}
@@ -409,31 +419,34 @@ def fifo_choose(fns):
         lem_res = None
         if lemma:
             # lemma: the product computed by the code (MIR operands) is ttl_s * 10^9 without overflow, for every ttl_s
-            la, _, _ = symex.solve_batch(decls, [("lemma", [lemma])], "cvc5", 300)
-            lb, _, _ = symex.solve_batch(decls, [("lemma", [lemma])], "z3", 30)
+            la, _, _ = symex.solve_batch(decls, [("lemma", [lemma])], "cvc5", 300, (), 300000)
+            lb, _, _ = symex.solve_batch(decls, [("lemma", [lemma])], "z3new", 60, (), 60000)
             va, vb = (la or {}).get("lemma"), (lb or {}).get("lemma")
             got = {v for v in (va, vb) if v in ("sat", "unsat")}
             lem_res = got.pop() if len(got) == 1 else None
             x.glue = [("TTL cutoff: the constant multiplication in choose equals ttl_seconds * 10^9 ns without overflow (cvc5: %s, z3: %s)" % (va, vb),
                        {"unsat": "proved", "sat": "refuted"}.get(lem_res, "inconclusive"), 0.0)]
-        res, dt, raw = symex.solve_parallel(decls, allq, "z3", timeout, 8, glob)
+        res, dt, raw = symex.solve_parallel(decls, allq, "cvc5int", timeout, 12, glob)
         out = {"nodes": paths, "steps_bound": max(sum(len(r) for r in s) for s in shapes),
-               "assertions": sum(len(a) for _, a in allq), "violation_disjuncts": len(allq), "z3_s": round(dt, 2),
-               "queries": len(allq), "paths": paths, "assumptions": sorted(assumptions)}
+               "assertions": sum(len(a) for _, a in allq) + len(glob), "violation_disjuncts": len(allq), "z3_s": round(dt, 2),
+               "queries": len(allq), "paths": paths, "assumptions": sorted(assumptions),
+               "solvers": "cvc5 1.0 --solve-bv-as-int=sum (deciding) ; cvc5 1.0 bit-blasting (cross-check, 20 s per query)"}
         if res is None:
-            out.update(verdict="inconclusive", reason="z3: %s" % raw, z3="error")
+            out.update(verdict="inconclusive", reason="cvc5 (int encoding): %s" % raw, z3="error")
             return out
-        res2, dt2, raw2 = symex.solve_parallel(decls, allq, "cvc5", timeout, 8, glob)
+        res2, dt2, raw2 = symex.solve_parallel(decls, allq, "cvc5", timeout, 12, glob, 20000)
         out["cvc5_s"] = round(dt2, 2)
         if res2 is None:
-            out.update(verdict="inconclusive", reason="cvc5: %s" % str(raw2)[:300], z3="ok", cvc5="error")
+            out.update(verdict="inconclusive", reason="cvc5 (bit-blasting cross-check): %s" % str(raw2)[:300], z3="ok", cvc5="error")
             return out
         diff = [t for t in res if res[t] != res2[t] and "unknown" not in (res[t], res2[t])]
+        out["cross_checked"] = len([t for t in res if res2[t] != "unknown"])
+        out["cross_unknown"] = len([t for t in res if res2[t] == "unknown"])
         if diff:
-            out.update(verdict="inconclusive", reason="z3 and cvc5 disagree on %s" % diff[:3], z3="ok", cvc5="ok")
+            out.update(verdict="inconclusive", reason="the two encodings disagree on %s" % diff[:3], z3="ok", cvc5="ok")
             return out
         if any(v == "unknown" for v in res.values()):
-            out.update(verdict="inconclusive", reason="solver answered unknown", z3="unknown")
+            out.update(verdict="inconclusive", reason="solver answered unknown on %d queries" % len([v for v in res.values() if v == "unknown"]), z3="unknown")
             return out
         feas = [t for t, v in res.items() if "/feasible:" in t and v == "sat"]
         viol = [t for t, v in res.items() if "/feasible:" not in t and v == "sat"]
@@ -489,4 +502,288 @@ def fifo_choose(fns):
                   ("R3", "", "Choice::Drop carries exactly the accumulated ids; DoNothing iff none")]
     x.shapes = shapes
     x.canary = lambda timeout: runner(timeout, nosort=True)
+    return [x]
+
+
+# ---------------------------------------------------------------------------------------------
+# C15 O15.4: clear() publishes a super version with a fresh active memtable, no sealed memtables, an empty version
+# ---------------------------------------------------------------------------------------------
+
+def _clear_check(fns, sel, title):
+    outer = mir.find(fns, sel)
+    up = [b for b in outer.blocks.values() if not b.cleanup and b.kind == "call" and re.search(r"SuperVersions::upgrade_version::<", b.callee)]
+    if len(up) != 1:
+        raise MirError("clear: expected exactly one upgrade_version call")
+    spans = re.findall(r"\{closure@([^}]+)\}", up[0].callee)
+    cfs = [f for f in fns if f.closure_span() in spans]
+    if len(cfs) != 1:
+        raise MirError("clear: closure passed to upgrade_version not found")
+    cf = cfs[0]
+    names = struct_fields("version/super_version.rs", "SuperVersion")
+
+    def runner(timeout):
+        ex = symex.Executor([cf], [])
+        old = Tup([Obj("OldActive"), Obj("OldSealed"), Obj("OldVersion"), ex.sym("old_seqno", 64)])
+        if len(names) != 4 or names[:3] != ["active_memtable", "sealed_memtables", "version"]:
+            raise MirError("SuperVersion fields changed: %s" % names)
+        old_id = ex.sym("old_version_id", 64)
+
+        def m_clone(ex, env, b, a, p, d):
+            return _one(Tup(list(old.items)))
+
+        def m_opaque(kind):
+            return lambda ex, env, b, a, p, d: _one(Obj(kind, args=a))
+
+        def m_version_id(ex, env, b, a, p, d):
+            v = a[0].target if isinstance(a[0], Ref) else a[0]
+            if not (isinstance(v, Obj) and v.kind == "OldVersion"):
+                raise MirError("Version::id of %r" % (v,))
+            return _one(old_id)
+
+        ex.models = [(re.compile(r), h) for r, h in [
+            (r"^<SuperVersion as Clone>::clone$", m_clone),
+            (r"^<(Tree|BlobTree) as Deref>::deref$", m_opaque("TreeInner")),
+            (r"^SequenceNumberCounter::next$", m_opaque("FreshId")),
+            (r"^Memtable::new$", m_opaque("FreshMemtable")),
+            (r"^Arc::<Memtable>::new$", lambda ex, env, b, a, p, d: _one(a[0])),
+            (r"^<Arc<SealedMemtables> as Default>::default$", m_opaque("EmptySealed")),
+            (r"^<SealedMemtables as Default>::default$", m_opaque("EmptySealed")),
+            (r"^Arc::<SealedMemtables>::new$", lambda ex, env, b, a, p, d: _one(a[0])),
+            (r"^Version::id$", m_version_id),
+            (r"^<(Tree|BlobTree) as AbstractTree>::tree_type$", m_opaque("TreeType")),
+            (r"^Version::new$", m_opaque("NewVersion")),
+        ]]
+
+        class TreeRec(Obj):
+            def field(self, ex, i, ty):
+                return Obj("TreeField", i=i, ty=ty)
+        ex_models_extra = []
+        results = []
+        # the tree handle: fields are opaque (counters etc.)
+        tree = TreeRec("Tree")
+        ex.models.insert(1, (re.compile(r"^<(Tree|BlobTree) as Deref>::deref$"), lambda ex, env, b, a, p, d: _one(tree)))
+        clo = Closure(cf.closure_span(), [Ref(tree)])
+
+        def done(ret, env, path):
+            results.append((ret, path))
+        ex.run(cf, [clo, Ref(old)], symex.Path(), done)
+        out = {"nodes": len(results), "steps_bound": 1, "assertions": 0, "violation_disjuncts": 0, "z3_s": 0.0, "queries": 0,
+               "paths": len(results), "feasible_paths": len(results), "assumptions": sorted(ex.assumptions),
+               "solvers": "cvc5 1.0 --solve-bv-as-int=sum"}
+        bad, queries = [], []
+        for k, (ret, path) in enumerate(results):
+            if not (isinstance(ret, Enum) and ret.variant == "Ok" and isinstance(ret.payload[0], Tup)):
+                bad.append((k, "closure does not return Ok(super version)", path))
+                continue
+            f = ret.payload[0].items
+            if not (isinstance(f[0], Obj) and f[0].kind == "FreshMemtable"):
+                bad.append((k, "the active memtable of the cleared super version is not a fresh Memtable::new(..): writes made before clear() stay readable", path))
+            if not (isinstance(f[1], Obj) and f[1].kind == "EmptySealed"):
+                bad.append((k, "the sealed memtables survive clear(): a rotated but unflushed memtable stays readable and is flushed later", path))
+            if not (isinstance(f[2], Obj) and f[2].kind == "NewVersion"):
+                bad.append((k, "the version of the cleared super version is not Version::new(..): tables survive clear()", path))
+            elif isinstance(f[2].args[0], BV):
+                queries.append(("id:%d" % k, path.pc + ["(not (= %s (bvadd old_version_id (_ bv1 64))))" % f[2].args[0].t]))
+        if queries:
+            res, dt, raw = symex.solve_batch(ex.decls, queries, "cvc5int", timeout)
+            out.update(z3_s=round(dt, 2), queries=len(queries), assertions=sum(len(a) for _, a in queries))
+            if res is None or any(v == "unknown" for v in res.values()):
+                out.update(verdict="inconclusive", reason="solver: %s" % str(raw)[:200], z3="error")
+                return out
+            for t, v in res.items():
+                if v == "sat":
+                    bad.append((int(t.split(":")[1]), "the new version's id is not the old id + 1", results[int(t.split(":")[1])][1]))
+        out["z3"] = out["cvc5"] = "sat" if bad else "unsat"
+        if not results:
+            out.update(verdict="inconclusive", reason="no path through the closure")
+        elif bad:
+            k, msg, path = bad[0]
+            out.update(verdict="refuted", reason=msg, path=["  closure %s" % cf.name, "  MIR path: " + " ".join("bb%d" % bb for _, bb in path.trace)])
+        else:
+            out.update(verdict="proved", reason="")
+        return out
+
+    x = XCheck(title, cf, runner)
+    x.requires = [("", "", "active memtable fresh, sealed memtables empty, version = Version::new(old id + 1, tree type)")]
+    x.shapes = "n/a (straight-line closure)"
+    return x
+
+
+def clear_resets(fns):
+    return [_clear_check(fns, r"src/tree/mod\.rs[^>]*>::clear\(", "O15.4a Tree::clear publishes a super version with nothing in it"),
+            _clear_check(fns, r"src/blob_tree/mod\.rs[^>]*>::clear\(", "O15.4b BlobTree::clear publishes a super version with nothing in it")]
+
+
+# ---------------------------------------------------------------------------------------------
+# C17 O17.3: StreamFilterAdapter::filter_item maps every compaction-filter verdict to the stream verdict it stands for
+# ---------------------------------------------------------------------------------------------
+
+def enum_variants(rel, name):
+    txt = open(os.path.join(_src_root(), rel)).read()
+    m = re.search(r"enum %s\s*\{(.*?)\n\}" % re.escape(name), txt, re.S)
+    if not m:
+        raise MirError("enum %s not found in %s" % (name, rel))
+    out = []
+    for line in m.group(1).splitlines():
+        mm = re.match(r"^\s*([A-Z][A-Za-z0-9_]*)\s*(\(|,|\{|$)", line)
+        if mm:
+            out.append(mm.group(1))
+    return out
+
+
+def same(a, b):
+    """object identity across the deep copies made at forks: kinds are unique per modelled object"""
+    return isinstance(a, Obj) and isinstance(b, Obj) and a.kind == b.kind
+
+
+def filter_adapter(fns):
+    fn = mir.find(fns, r"src/compaction/filter\.rs[^>]*>::filter_item\(_1: &mut StreamFilterAdapter")
+    variants = enum_variants("compaction/filter.rs", "Verdict")
+    want = {"Keep", "Remove", "RemoveWeak", "ReplaceValue", "Destroy"}
+    if set(variants) != want:
+        raise MirError("compaction::filter::Verdict has variants %s" % variants)
+
+    def runner(timeout):
+        ex = symex.Executor([fn], [])
+        discr = ex.sym("verdict", 64)
+        new_value = Obj("NewValue")
+        verdict = symex.SymEnum(discr, variants, {v: ([new_value] if v == "ReplaceValue" else []) for v in variants})
+        ferr = Obj("FilterError")
+        has_filter, is_err = ex.symb("has_filter"), ex.symb("filter_returns_err")
+        dynf, shared, ctx = Obj("DynFilter"), Obj("Shared"), Obj("Ctx")
+        selfobj = Rec("StreamFilterAdapter", "compaction/filter.rs", "StreamFilterAdapter",
+                      {"filter": Opt(has_filter, dynf), "shared": shared, "ctx": Ref(ctx)})
+        ikey = Obj("ItemKey")
+
+        class Item(Obj):
+            def field(self, ex, i, ty):
+                if i == 0 and "InternalKey" in ty:
+                    return ikey
+                raise MirError("item field %d" % i)
+        item = Item("Item")
+        seen = {}
+
+        def m_as_mut(ex, env, b, a, p, d):
+            o = a[0].target if isinstance(a[0], Ref) else a[0]
+            return _one(Opt(o.cond, Ref(o.val)))
+
+        def m_filter(ex, env, b, a, p, d):
+            f = a[0].target if isinstance(a[0], Ref) else a[0]
+            acc = a[1]
+            it = acc.fields.get("item") if isinstance(acc, symex.Agg) else None
+            it = it.target if isinstance(it, Ref) else it
+            c = a[2].target if isinstance(a[2], Ref) else a[2]
+            seen["args_ok"] = (same(f, dynf) or (isinstance(f, Ref) and same(f.target, dynf))) and same(it, item) and same(c, ctx)
+            return _one(symex.Sum2(is_err, "Ok", "Err", [verdict], [ferr]))
+
+        def m_branch(ex, env, b, a, p, d):
+            r = a[0]
+            return _one(symex.Sum2(r.c1, "Continue", "Break", r.p0, [Obj("Residual", err=r.p1[0])]))
+
+        def m_from_residual(ex, env, b, a, p, d):
+            return _one(Enum("Err", [a[0]]))
+
+        def m_empty(ex, env, b, a, p, d):
+            return _one(Obj("EmptySlice"))
+
+        def m_handle_write(ex, env, b, a, p, d):
+            return _one(Obj("HandleWrite", args=a))
+
+        def m_map(ex, env, b, a, p, d):
+            return _one(Obj("Mapped", of=a[0], by=a[1]))
+
+        ex.models = [(re.compile(r), h) for r, h in [
+            (r"^Option::<&mut dyn CompactionFilter>::as_mut$", m_as_mut),
+            (r"^<dyn CompactionFilter as CompactionFilter>::filter_item$", m_filter),
+            (r"^<std::result::Result<Verdict, error::Error> as Try>::branch$", m_branch),
+            (r"as FromResidual<std::result::Result<Infallible, error::Error>>>::from_residual$", m_from_residual),
+            (r"^(slice::)?slice_default::Slice::empty$", m_empty),
+            (r"^StreamFilterAdapter::<'_, '_>::handle_write$", m_handle_write),
+            (r"^std::result::Result::<\(ValueType, slice_default::Slice\), error::Error>::map::<StreamFilterVerdict,", m_map),
+        ]]
+        results = []
+        ex.run(fn, [Ref(selfobj), Ref(item)], symex.Path(), lambda ret, env, path: results.append((ret, path)))
+        idx = {v: i for i, v in enumerate(variants)}
+        queries = []
+        for k, (ret, path) in enumerate(results):
+            queries.append(("nofilter:%d" % k, path.pc + ["(not has_filter)"]))
+            queries.append(("err:%d" % k, path.pc + ["has_filter", "filter_returns_err"]))
+            for v in variants:
+                queries.append(("%s:%d" % (v, k), path.pc + ["has_filter", "(not filter_returns_err)", "(= verdict (_ bv%d 64))" % idx[v]]))
+        base = ["(bvult verdict (_ bv%d 64))" % len(variants)]
+        res, dt, raw = symex.solve_batch(ex.decls, queries, "cvc5int", timeout, base)
+        out = {"nodes": len(results), "steps_bound": 1, "assertions": sum(len(a) for _, a in queries), "violation_disjuncts": len(queries),
+               "z3_s": round(dt, 2), "queries": len(queries), "paths": len(results), "assumptions": sorted(ex.assumptions),
+               "solvers": "cvc5 1.0 --solve-bv-as-int=sum (deciding) ; z3 5.1.0 (cross-check)"}
+        if res is None:
+            out.update(verdict="inconclusive", reason="solver: %s" % str(raw)[:200], z3="error")
+            return out
+        res2, dt2, raw2 = symex.solve_batch(ex.decls, queries, "z3new", timeout, base)
+        out["cvc5_s"] = round(dt2, 2)
+        if res2 is None or any(res[t] != res2[t] for t in res):
+            out.update(verdict="inconclusive", reason="cross-check failed or disagrees", z3="error")
+            return out
+
+        def is_ok(ret, inner):
+            return isinstance(ret, Enum) and ret.variant == "Ok" and inner(ret.payload[0])
+
+        def replace_with(vt):
+            def f(x):
+                if not (isinstance(x, Enum) and x.variant == "Replace" and isinstance(x.payload[0], Tup)):
+                    return False
+                t = x.payload[0].items
+                return isinstance(t[0], Enum) and t[0].variant == vt and isinstance(t[1], Obj) and t[1].kind == "EmptySlice"
+            return f
+
+        def keep(x):
+            return isinstance(x, Enum) and x.variant == "Keep"
+
+        def drop(x):
+            return isinstance(x, Enum) and x.variant == "Drop"
+
+        def handle_write_ok(ret):
+            if not (isinstance(ret, Obj) and ret.kind == "Mapped" and isinstance(ret.by, symex.FnItem) and ret.by.path.endswith("StreamFilterVerdict::Replace")):
+                return False
+            hw = ret.of
+            if not (isinstance(hw, Obj) and hw.kind == "HandleWrite"):
+                return False
+            a = hw.args
+            k = a[1].target if isinstance(a[1], Ref) else a[1]
+            return same(k, ikey) and same(a[2], new_value)
+        expect = {
+            "nofilter": ("Ok(StreamFilterVerdict::Keep) when no filter is installed", lambda r: is_ok(r, keep)),
+            "err": ("the filter's error is returned", lambda r: isinstance(r, Enum) and r.variant == "Err" and isinstance(r.payload[0], Obj) and r.payload[0].kind == "Residual" and same(r.payload[0].err, ferr)),
+            "Keep": ("Verdict::Keep -> Keep", lambda r: is_ok(r, keep)),
+            "Destroy": ("Verdict::Destroy -> Drop", lambda r: is_ok(r, drop)),
+            "Remove": ("Verdict::Remove -> Replace((Tombstone, empty))", lambda r: is_ok(r, replace_with("Tombstone"))),
+            "RemoveWeak": ("Verdict::RemoveWeak -> Replace((WeakTombstone, empty))", lambda r: is_ok(r, replace_with("WeakTombstone"))),
+            "ReplaceValue": ("Verdict::ReplaceValue(v) -> handle_write(&item.key, v).map(Replace)", handle_write_ok),
+        }
+        bad, covered = [], set()
+        for t, v in res.items():
+            if v != "sat":
+                continue
+            case, k = t.split(":")
+            covered.add(case)
+            ret, path = results[int(k)]
+            if not expect[case][1](ret):
+                bad.append((case, expect[case][0], path))
+            if case not in ("nofilter",) and not seen.get("args_ok"):
+                bad.append((case, "the filter is not called with (this item, the adapter's context)", path))
+        out["covered_outcomes"] = sorted(covered)
+        out["feasible_paths"] = len(results)
+        out["z3"] = out["cvc5"] = "sat" if bad else "unsat"
+        if covered != set(expect):
+            out.update(verdict="inconclusive", reason="vacuity: cases %s unreachable" % sorted(set(expect) - covered))
+        elif bad:
+            case, msg, path = bad[0]
+            out.update(verdict="refuted", reason="wrong stream verdict for case %s; expected: %s" % (case, msg),
+                       path=["  case: %s" % case, "  expected: %s" % msg, "  MIR path: " + " ".join("bb%d" % bb for _, bb in path.trace)])
+        else:
+            out.update(verdict="proved", reason="")
+        return out
+
+    x = XCheck("O17.3 StreamFilterAdapter::filter_item: every CompactionFilter verdict becomes the stream verdict it stands for", fn, runner)
+    x.requires = [("", "", "Keep->Keep, Destroy->Drop, Remove->Replace((Tombstone, empty)), RemoveWeak->Replace((WeakTombstone, empty)), ReplaceValue(v)->handle_write(&item.key, v).map(Replace); no filter->Keep; filter error->Err")]
+    x.shapes = "n/a (loop-free)"
     return [x]
